@@ -13,11 +13,14 @@ def check_cfg(maxlen, alias):
     return "SPECIFICATION Spec\nCONSTANTS\n  Alphabet <- McAlphabet\n  MaxLen = %d\n  CheckAlias = %s\n" % (maxlen, "TRUE" if alias else "FALSE")
 
 
-CLASS = {"'": "single-quote", '"': "double-quote", "\\": "backslash", "`": "backtick", "-": "dash", "/": "slash", "*": "star", "$": "dollar", ";": "semicolon", "\n": "newline",
+CLASS = {"\r": "carriage-return", "'": "single-quote", '"': "double-quote", "\\": "backslash", "`": "backtick", "-": "dash", "/": "slash", "*": "star", "$": "dollar", ";": "semicolon", "\n": "newline",
          "%": "percent", "_": "underscore"}
 
 
 def classify(ev):
+    if ev["e"] == "comment":
+        chars = sorted({CLASS.get(c, "plain") for c in ev["payload"]} - {"plain"}) or ["plain"]
+        return "%s/query-comment-ends-early/%s" % (ev["pos"], "+".join(chars))
     if ev["panic"]:
         return "%s/panic" % ev["pos"]
     chars = sorted({CLASS.get(c, "plain") for c in ev["payload"]} - {"plain"}) or ["plain"]
@@ -75,6 +78,9 @@ def run(ctx):
     sample = []
     for ln in open(trace):
         e = json.loads(ln)
+        if e["e"] == "comment":
+            ctx.cov["query_comments_checked"] = ctx.cov.get("query_comments_checked", 0) + 1
+            continue
         by_pos[e["pos"]] = by_pos.get(e["pos"], 0) + 1
         if e["benign_ok"] and e["hostile_ok"]:
             accepted += 1
@@ -87,7 +93,7 @@ def run(ctx):
     ctx.cov["distinct_nontrivial"] = hostile
     ctx.cov["samples"] += sample
     ctx.cov["exhaustive"] = True
-    ctx.cov["rule"] = ("every payload x every position; a record is checked when both the benign and the hostile query are accepted (rejecting is allowed).  non-trivial = accepted pairs "
+    ctx.cov["rule"] = ("every payload x every position; a record is checked when both the benign and the hostile query are accepted (rejecting is allowed); for every accepted hostile query the text that translate.FromCypher (the driver's entry point) puts in front of the statement must lex to no token.  non-trivial = accepted pairs "
                        "whose payload holds at least one character with a lexical role in SQL")
     seen = set()
     for hid, ev, events, pos in rejected:
@@ -95,6 +101,10 @@ def run(ctx):
         if key in seen:
             continue
         seen.add(key)
+        if ev["e"] == "comment":
+            ctx.report(key, "position %s, payload %r, query %r: the stretch translate.FromCypher writes in front of the statement (the query as a -- comment) does not lex to nothing: %r" % (
+                ev["pos"], "".join(ev["payload"])[:60], ev["text"][:200], "".join(ev["prefix"])[:300]), {"pos": ev["pos"], "payload": ev["payload"], "text": ev["text"]})
+            continue
         ctx.report(key, "position %s (%s), payload %r, query %r: %s" % (
             ev["pos"], ev["kind"], "".join(ev["payload"])[:60], ev["text"][:200],
             "panic: " + ev["err"][:200] if ev["panic"] else
